@@ -280,6 +280,112 @@ func registerNatives(e *Engine) {
 	}
 	n["time.Until"] = n["time.Since"]
 
+	// timers and tickers: model channels that never fire unless the harness
+	// registered a model timer (vrt.TimerChan); Stop/Reset are recorded no-ops
+	n["time.NewTicker"] = func(e *Engine, g *G, cs *callSite, a []Value) (Value, bool) {
+		return e.newTimeObj("Ticker", a[0]), true
+	}
+	n["time.NewTimer"] = func(e *Engine, g *G, cs *callSite, a []Value) (Value, bool) {
+		return e.newTimeObj("Timer", a[0]), true
+	}
+	n["time.AfterFunc"] = func(e *Engine, g *G, cs *callSite, a []Value) (Value, bool) {
+		return e.newTimeObj("Timer", a[0]), true
+	}
+	n["time.After"] = func(e *Engine, g *G, cs *callSite, a []Value) (Value, bool) {
+		p := e.newTimeObj("Timer", a[0]).(*Pointer)
+		return e.load(p).(*Struct).F[0], true
+	}
+	n["time.Tick"] = n["time.After"]
+	n["(*time.Timer).Stop"] = func(e *Engine, g *G, cs *callSite, a []Value) (Value, bool) { return TTrue, true }
+	n["(*time.Timer).Reset"] = func(e *Engine, g *G, cs *callSite, a []Value) (Value, bool) {
+		e.timerResets = append(e.timerResets, a[1].(*Term))
+		return TTrue, true
+	}
+	n["(*time.Ticker).Stop"] = nop
+	n["(*time.Ticker).Reset"] = nop
+	v("TimerChan", func(e *Engine, g *G, cs *callSite, a []Value) (Value, bool) {
+		// the channel handed out by the k-th timer/ticker created so far (nil if none)
+		k := int(a[0].(*Term).SVal())
+		if k < 0 || k >= len(e.timerChans) {
+			return (*ChanObj)(nil), true
+		}
+		e.timerChans[k].never = false
+		return e.timerChans[k], true
+	})
+	v("TimerResets", func(e *Engine, g *G, cs *callSite, a []Value) (Value, bool) {
+		return I64C(int64(len(e.timerResets))), true
+	})
+	v("TimerReset", func(e *Engine, g *G, cs *callSite, a []Value) (Value, bool) {
+		k := int(a[0].(*Term).SVal())
+		if k < 0 || k >= len(e.timerResets) {
+			return I64C(-1), true
+		}
+		return e.timerResets[k], true
+	})
+
+	// go-metrics: meters register themselves with a global ticking arbiter;
+	// replaced by the library's own no-op meter
+	n["github.com/rcrowley/go-metrics.NewMeter"] = func(e *Engine, g *G, cs *callSite, a []Value) (Value, bool) {
+		pkg := e.prog.ImportedPackage("github.com/rcrowley/go-metrics")
+		t := pkg.Type("NilMeter").Type()
+		return &Iface{T: t, V: zero(t)}, true
+	}
+	n["crypto/rand.Read"] = func(e *Engine, g *G, cs *callSite, a []Value) (Value, bool) {
+		s := a[0].(*Slice)
+		if s.P != nil {
+			arr, off := e.sliceBytes(s)
+			rnd := e.freshInternal("cryptorand", ArrSort)
+			e.setSliceBytes(s, ArrCopy(arr, rnd, off, I64C(0), s.Len))
+		}
+		return Tuple{s.Len, NilIface}, true
+	}
+
+	// net.IP.String goes through net/netip and the `unique` package (runtime
+	// weak pointers). The repository uses the result only as a map key and in
+	// log lines, so it is replaced by an injective encoding of the address
+	// bytes ("ip4:" + 4 raw bytes, v4-mapped addresses included; "ip6:" + 16).
+	n["(net.IP).String"] = func(e *Engine, g *G, cs *callSite, a []Value) (Value, bool) {
+		s := a[0].(*Slice)
+		e.StubsUsed["net.IP.String: injective raw-byte encoding instead of dotted text"]++
+		if s.P == nil {
+			return ConcStr("<nil>"), true
+		}
+		n := e.concretize(s.Len, 64, "net.IP length")
+		arr, off := e.sliceBytes(s)
+		at := func(k uint64) *Term { return Select(arr, BVBin("bvadd", off, BVC(64, k))) }
+		mk := func(prefix string, from, cnt uint64) Value {
+			r := ZeroArr
+			for i := 0; i < len(prefix); i++ {
+				r = Store(r, I64C(int64(i)), BVC(8, uint64(prefix[i])))
+			}
+			for k := uint64(0); k < cnt; k++ {
+				r = Store(r, I64C(int64(len(prefix))+int64(k)), at(from+k))
+			}
+			return e.mkString(r, I64C(0), I64C(int64(len(prefix))+int64(cnt)))
+		}
+		switch n {
+		case 0:
+			return ConcStr("<nil>"), true
+		case 4:
+			return mk("ip4:", 0, 4), true
+		case 16:
+			mapped := TTrue
+			for k := uint64(0); k < 10; k++ {
+				mapped = And(mapped, Eq(at(k), BVC(8, 0)))
+			}
+			mapped = And(mapped, And(Eq(at(10), BVC(8, 0xff)), Eq(at(11), BVC(8, 0xff))))
+			if e.branch(mapped) {
+				return mk("ip4:", 12, 4), true
+			}
+			return mk("ip6:", 0, 16), true
+		}
+		return ConcStr("?ip"), true
+	}
+	n["(*net.TCPAddr).String"] = func(e *Engine, g *G, cs *callSite, a []Value) (Value, bool) {
+		return ConcStr("<tcpaddr>"), true
+	}
+	n["(*net.UDPAddr).String"] = n["(*net.TCPAddr).String"]
+
 	// ---- math/rand ----
 	n["math/rand/v2.IntN"] = func(e *Engine, g *G, cs *callSite, a []Value) (Value, bool) {
 		nn := a[0].(*Term)
@@ -332,6 +438,36 @@ func registerNatives(e *Engine) {
 	delete(n, "unsafe.String")
 	n["internal/abi.NoEscape"] = func(e *Engine, g *G, cs *callSite, a []Value) (Value, bool) { return a[0], true }
 	n["internal/abi.Escape"] = func(e *Engine, g *G, cs *callSite, a []Value) (Value, bool) { return a[0], true }
+}
+
+// newTimeObj builds a *time.Timer / *time.Ticker whose channel never fires.
+func (e *Engine) newTimeObj(typ string, d Value) Value {
+	pkg := e.prog.ImportedPackage("time")
+	if pkg == nil {
+		e.unsupported("package time not loaded")
+	}
+	t := pkg.Type(typ).Type()
+	st := t.Underlying().(*types.Struct)
+	s := zero(t).(*Struct)
+	e.objSeq++
+	var elem types.Type
+	for k := 0; k < st.NumFields(); k++ {
+		if st.Field(k).Name() == "C" {
+			elem = st.Field(k).Type()
+			ch := &ChanObj{id: e.objSeq, Cap: 1, T: elem, never: true}
+			e.timerChans = append(e.timerChans, ch)
+			nf := make([]Value, len(s.F))
+			copy(nf, s.F)
+			nf[k] = ch
+			s = &Struct{F: nf}
+		}
+	}
+	if dt, ok := d.(*Term); ok {
+		e.timerResets = append(e.timerResets, dt)
+	}
+	e.StubsUsed["time."+typ+": model timer (fires only when the harness sends on vrt.TimerChan)"]++
+	o := e.newObject(t, s, "time."+typ)
+	return &Pointer{O: o}
 }
 
 func fmtString(v Value) string {
